@@ -6,14 +6,18 @@
 
     [filter_then_bind] is proved for pairwise-disjoint requested range lists (and, without that premise, for no
     requested ranges / at most one range list without an IP of the key: [filter_then_bind_partial]).
-    [bind_routable] as asked for is still FALSE for pods WITHOUT requested ranges whose key holds two IPs (finding K7,
-    open): Filter and Bind each take "the first" IP of the key in Go map order, possibly different ones
-    ([bind_routable_refuted], reachable: [bind_routable_witness_reachable]).  It is proved with the premise
-    [key_single] for such pods ([bind_routable_partial]) and without any extra premise for pods WITH requested ranges
-    ([bind_routable_ranges]).
+    [bind_routable] is proved as asked for, for every pod - with or without requested ranges, whatever the number of
+    IPs its key holds ([bind_routable_ranges] and [bind_routable_partial] are special cases kept for reference).
 
-    Two further defects found by refutation of these statements have been REPAIRED in the Go code, and the model
-    follows the repaired code; the witnesses are kept as statements about the OLD behaviour ([*_old]):
+    Three defects found by refutation of these statements have been REPAIRED in the Go code, and the model follows the
+    repaired code; the witnesses are kept as statements about the OLD behaviour ([*_old]):
+    - K7 (repaired in Go commit K7FIX): a pod WITHOUT requested ranges whose key holds several IPs: Filter and Bind each
+      took "the first" IP of the key in Go map order, possibly different ones, so Bind could write an IP that is not
+      routable from the approved node.  Now ByKeyAndIPRanges(key, nil) lists the key's IPs in ascending order: "the
+      first" is the SMALLEST IP of the key ([first_of_key]) for Filter and Bind alike.  The old behaviour
+      ([first_of_key_old], sections [filter_section_old7] / [bind_section_old7]) is refuted by
+      [bind_routable_refuted_old]; the witness world is reachable and the repaired sections write a routable IP there
+      ([bind_routable_witness_reachable], [bind_routable_nonvacuous]);
     - F15 (repaired in Go commit 07fe1a3): requested ranges, the IPs already held have no common node subnet: the
       pinned Filter dropped the empty intersection (`if allocatedSubnets.Len() > 0`) and Bind returned them all; now
       the restriction is never dropped and Filter offers no node ([bind_routable_refuted_ranges_old]);
@@ -31,41 +35,98 @@ Local Open Scope N_scope.
 
 (** * every IP written by a bind on a filter-approved node is routable from that node *)
 
-(* The statement asked for - FALSE for pods without requested ranges, see [bind_routable_refuted] (K7):
-   Theorem bind_routable : ∀ w p nodes o fl w1 l ns name uid node o2 fl2 w2 ips nip sn pl,
-     WInv w → w_pods w !! (ns, name) = Some p → filter_section w p nodes o fl = (w1, FNodes l) → In node l →
-     w_lister w1 !! (ns, name) = Some pl → same_static p pl →
-     bind_section true true w1 ns name uid node o2 fl2 = (w2, BOk ips) →
-     w_nodes w !! node = Some nip → node_subnet (w_ipam w) nip = Some sn →
-     ∀ x, x ∈ ips → ip_has_subnet (i_pools (w_ipam w2)) x sn = true. *)
+(** The statement asked for.  No requested ranges and the key holds IPs: Filter offers the nodes from which the
+    SMALLEST IP of the key is routable and changes nothing; Bind re-uses the smallest IP of the key - the same one.
+    The key holds nothing: Bind writes the IP Filter took for the pod, or a fresh one routable from the node.  Requested
+    ranges: the IPs re-used are the ones Filter restricted the nodes by, the others are allocated in the node's subnet.
+    (The premise [w_pods w !! (ns, name) = Some p] is not used.) *)
+Theorem bind_routable : ∀ w p nodes o fl w1 l ns name uid node o2 fl2 w2 ips nip sn pl,
+  WInv w → w_pods w !! (ns, name) = Some p → filter_section w p nodes o fl = (w1, FNodes l) → In node l →
+  w_lister w1 !! (ns, name) = Some pl → same_static p pl →
+  bind_section true true w1 ns name uid node o2 fl2 = (w2, BOk ips) →
+  w_nodes w !! node = Some nip → node_subnet (w_ipam w) nip = Some sn →
+  ∀ x, x ∈ ips → ip_has_subnet (i_pools (w_ipam w2)) x sn = true.
+Proof. intros * HW _. by eapply bind_routable_w. Qed.
+Print Assumptions bind_routable.
 
-(** witness [wit1] (pools A = 10.100.0.2-4 on the subnets of node1, node2; B = 10.101.0.2-3 on those of node1,
-    node3): statefulset pod web-0, policy never, no requested ranges, whose key holds 10.100.0.3 (A) and 10.101.0.2
-    (B).  Filter meets 10.100.0.3 first: nodes node1, node2.  Bind on node2 meets 10.101.0.2 first and writes it. *)
-Theorem bind_routable_refuted :
+(** the hypotheses are satisfiable by a world whose key holds two IPs in different pools - [wit1], the K7 witness world
+    (pools A = 10.100.0.2-4 on the subnets of node1, node2; B = 10.101.0.2-3 on those of node1, node3): statefulset pod
+    web-0, policy never, no requested ranges, whose key holds 10.100.0.3 (A) and 10.101.0.2 (B).  Filter looks at the
+    smaller one and offers node1, node2; Bind on node2 writes 10.100.0.3, routable from node2 (10.101.0.2 is not); an
+    oracle naming 10.101.0.2 as the first IP is not a possible one any more (Stuck) *)
+Example bind_routable_nonvacuous :
+  let w := wit1 in let p := wit_pod in let x1 := ip4 10 100 0 3 in let x2 := ip4 10 101 0 2 in
+  let sn := (ip4 10 2 0 0, 24) in
+  let b := bind_section true true w (L "ns1") (L "web-0") (L "u2") (L "node2") (o_first_is x1) no_faults in
+  WInv w ∧ w_pods w !! (L "ns1", L "web-0") = Some p ∧ pd_ranges p = [] ∧
+  (∃ e1 e2, i_alloc (w_ipam w) !! x1 = Some e1 ∧ e_key e1 = pod_key p ∧ i_alloc (w_ipam w) !! x2 = Some e2 ∧ e_key e2 = pod_key p) ∧
+  pool_of (i_pools (w_ipam w)) x1 ≠ pool_of (i_pools (w_ipam w)) x2 ∧
+  filter_section w p ex_allnodes (o_first_is x1) no_faults = (w, FNodes [L "node1"; L "node2"]) ∧
+  w_lister w !! (L "ns1", L "web-0") = Some p ∧ same_static p p ∧
+  b.2 = BOk [x1] ∧
+  w_nodes w !! L "node2" = Some (ip4 10 2 0 9) ∧ node_subnet (w_ipam w) (ip4 10 2 0 9) = Some sn ∧
+  ip_has_subnet (i_pools (w_ipam b.1)) x1 sn = true ∧ ip_has_subnet (i_pools (w_ipam b.1)) x2 sn = false ∧
+  (filter_section w p ex_allnodes (o_first_is x2) no_faults).2 = FStuck ∧
+  (bind_section true true w (L "ns1") (L "web-0") (L "u2") (L "node2") (o_first_is x2) no_faults).2 = BStuck.
+Proof. exact ex_bind_routable_l. Qed.
+
+(** K7, the OLD behaviour ([filter_section_old7], [bind_section_old7]: the sections of the model with [first_of_key_old],
+    which accepts ANY IP of the key as "the first", in place of [first_of_key]; Proofs/PluginStickyP.v,
+    [filter_section_g_model] / [bind_section_g_model]).  Witness [wit1]: Filter met 10.100.0.3 first: nodes node1,
+    node2.  Bind on node2 met 10.101.0.2 first and wrote it: not routable from node2. *)
+Theorem bind_routable_refuted_old :
   ∃ w p nodes o fl w1 l ns name uid node o2 fl2 w2 ips nip sn pl,
-    WInv w ∧ w_pods w !! (ns, name) = Some p ∧ filter_section w p nodes o fl = (w1, FNodes l) ∧ In node l ∧
+    WInv w ∧ w_pods w !! (ns, name) = Some p ∧ filter_section_old7 w p nodes o fl = (w1, FNodes l) ∧ In node l ∧
     w_lister w1 !! (ns, name) = Some pl ∧ same_static p pl ∧
-    bind_section true true w1 ns name uid node o2 fl2 = (w2, BOk ips) ∧
+    bind_section_old7 w1 ns name uid node o2 fl2 = (w2, BOk ips) ∧
     w_nodes w !! node = Some nip ∧ node_subnet (w_ipam w) nip = Some sn ∧
     ∃ x, x ∈ ips ∧ ip_has_subnet (i_pools (w_ipam w2)) x sn = false.
-Proof. exact bind_routable_refuted_l. Qed.
-Print Assumptions bind_routable_refuted.
+Proof. exact bind_routable_refuted_old_l. Qed.
+Print Assumptions bind_routable_refuted_old.
+
+(** ... the same at the level of the function naming the key's first IP: on the tables of [wit1] the old function
+    accepted the oracle naming 10.100.0.3 and the one naming 10.101.0.2 - two IPs whose only common node subnet is
+    node1's; the repaired one accepts only the first *)
+Theorem first_of_key_old_two :
+  let i := w_ipam wit1 in let key := pod_key wit_pod in
+  let x1 := ip4 10 100 0 3 in let x2 := ip4 10 101 0 2 in
+  first_of_key_old i key (o_first_is x1) = Some (Some x1) ∧ first_of_key_old i key (o_first_is x2) = Some (Some x2) ∧
+  first_of_key i key (o_first_is x1) = Some (Some x1) ∧ first_of_key i key (o_first_is x2) = None ∧
+  (∀ sn, ip_has_subnet (i_pools i) x1 sn = true → ip_has_subnet (i_pools i) x2 sn = true → sn = (ip4 10 1 0 0, 24)).
+Proof. exact first_of_key_old_two_l. Qed.
+Print Assumptions first_of_key_old_two.
+
+(** the repaired function: the IP it names is an IP of the key and the smallest one, so two calls on the same tables
+    agree whatever the oracles *)
+Theorem first_of_key_smallest : ∀ i key o x, first_of_key i key o = Some (Some x) →
+  ∃ e, i_alloc i !! x = Some e ∧ e_key e = key ∧ ∀ y ey, i_alloc i !! y = Some ey → e_key ey = key → x <= y.
+Proof. exact PluginBindP.first_of_key_some. Qed.
+Print Assumptions first_of_key_smallest.
 
 (** ... and that state is reached by ordinary operations: the pod first requested [10.100.0.3] and [10.101.0.2], ran
     on node1, was deleted (policy never: both IPs stay reserved under its key) and was re-created without the range
-    request.  [pouts] lists the results of the history's steps. *)
+    request.  [pouts] lists the results of the history's steps.  There the sections as they were before the repair
+    offered node2 and wrote 10.101.0.2, not routable from it; the repaired ones ([pstep]) write 10.100.0.3, routable
+    from node2, and the oracle naming 10.101.0.2 is not a possible one (RStuck). *)
 Theorem bind_routable_witness_reachable :
   let init := (pstep (world0 false ex_nodes) (PIpam (OConfigure ex_conf2b false []))).1 in
   let k := (L "ns1", L "web-0") in
   let w := prun init wit1_hist in
-  let fop := PFilter k ex_allnodes (o_first_is (ip4 10 100 0 3)) no_faults in
-  let bop := PBind (L "ns1") (L "web-0") (L "u2") (L "node2") (o_first_is (ip4 10 101 0 2)) no_faults in
-  pouts init wit1_hist = [ROk; ROk; RNodes [L "node1"]; RIps [ip4 10 100 0 3; ip4 10 101 0 2]; ROk; ROk; ROk; ROk; ROk] ∧
-  pstep w fop = (w, RNodes [L "node1"; L "node2"]) ∧
-  (pstep w bop).2 = RIps [ip4 10 101 0 2] ∧
-  w_nodes w !! L "node2" = Some (ip4 10 2 0 9) ∧ node_subnet (w_ipam w) (ip4 10 2 0 9) = Some (ip4 10 2 0 0, 24) ∧
-  ip_has_subnet (i_pools (w_ipam (pstep w bop).1)) (ip4 10 101 0 2) (ip4 10 2 0 0, 24) = false.
+  let x1 := ip4 10 100 0 3 in let x2 := ip4 10 101 0 2 in
+  let sn := (ip4 10 2 0 0, 24) in
+  let bold := bind_section_old7 w (L "ns1") (L "web-0") (L "u2") (L "node2") (o_first_is x2) no_faults in
+  let fop x := PFilter k ex_allnodes (o_first_is x) no_faults in
+  let bop x := PBind (L "ns1") (L "web-0") (L "u2") (L "node2") (o_first_is x) no_faults in
+  pouts init wit1_hist = [ROk; ROk; RNodes [L "node1"]; RIps [x1; x2]; ROk; ROk; ROk; ROk; ROk] ∧
+  w_pods w !! k = Some wit_pod ∧ w_lister w !! k = Some wit_pod ∧
+  w_nodes w !! L "node2" = Some (ip4 10 2 0 9) ∧ node_subnet (w_ipam w) (ip4 10 2 0 9) = Some sn ∧
+  (* before the repair of K7 *)
+  filter_section_old7 w wit_pod ex_allnodes (o_first_is x1) no_faults = (w, FNodes [L "node1"; L "node2"]) ∧
+  bold.2 = BOk [x2] ∧ ip_has_subnet (i_pools (w_ipam bold.1)) x2 sn = false ∧
+  (* repaired: both sections take the smaller IP; the oracle naming the other one is not a possible one *)
+  pstep w (fop x1) = (w, RNodes [L "node1"; L "node2"]) ∧
+  (pstep w (bop x1)).2 = RIps [x1] ∧ ip_has_subnet (i_pools (w_ipam (pstep w (bop x1)).1)) x1 sn = true ∧
+  (pstep w (fop x2)).2 = RStuck ∧ (pstep w (bop x2)).2 = RStuck.
 Proof. exact bind_routable_witness_reachable_l. Qed.
 Print Assumptions bind_routable_witness_reachable.
 
@@ -90,10 +151,8 @@ Theorem bind_routable_refuted_ranges_old :
 Proof. exact bind_routable_refuted_ranges_old_l. Qed.
 Print Assumptions bind_routable_refuted_ranges_old.
 
-(** the true statement: it holds whenever (no requested ranges) the pod's key holds at most one IP ([key_single]);
-    the premise [w_pods w !! (ns, name) = Some p] of the statement asked for is not needed.  For pods with requested
-    ranges nothing extra is needed any more: if the IPs the key already holds inside the requested ranges have no
-    common node subnet, the repaired Filter offers no node. *)
+(** special cases of [bind_routable], kept for reference: the form proved before the repair of K7, with the premise
+    that (no requested ranges) the pod's key holds at most one IP ([key_single]) - no longer needed - *)
 Theorem bind_routable_partial : ∀ w p nodes o fl w1 l ns name uid node o2 fl2 w2 ips nip sn pl,
   WInv w → filter_section w p nodes o fl = (w1, FNodes l) → In node l →
   w_lister w1 !! (ns, name) = Some pl → same_static p pl →
@@ -101,10 +160,11 @@ Theorem bind_routable_partial : ∀ w p nodes o fl w1 l ns name uid node o2 fl2 
   bind_section true true w1 ns name uid node o2 fl2 = (w2, BOk ips) →
   w_nodes w !! node = Some nip → node_subnet (w_ipam w) nip = Some sn →
   ∀ x, x ∈ ips → ip_has_subnet (i_pools (w_ipam w2)) x sn = true.
-Proof. exact bind_routable_w. Qed.
+Proof. intros * HW Hf Hn Hl Hst _. by eapply bind_routable_w. Qed.
 Print Assumptions bind_routable_partial.
 
-(** ... in particular the statement asked for holds as it stands for every pod with requested ranges *)
+(** ... and the statement for pods with requested ranges (for them it held before the repair of K7 already: if the IPs
+    the key holds inside the requested ranges have no common node subnet, Filter offers no node, F15) *)
 Theorem bind_routable_ranges : ∀ w p nodes o fl w1 l ns name uid node o2 fl2 w2 ips nip sn pl,
   WInv w → w_pods w !! (ns, name) = Some p → pd_ranges p ≠ [] →
   filter_section w p nodes o fl = (w1, FNodes l) → In node l →
@@ -112,7 +172,7 @@ Theorem bind_routable_ranges : ∀ w p nodes o fl w1 l ns name uid node o2 fl2 w
   bind_section true true w1 ns name uid node o2 fl2 = (w2, BOk ips) →
   w_nodes w !! node = Some nip → node_subnet (w_ipam w) nip = Some sn →
   ∀ x, x ∈ ips → ip_has_subnet (i_pools (w_ipam w2)) x sn = true.
-Proof. intros * HW _ Hr Hf Hn Hl Hst. by eapply bind_routable_w. Qed.
+Proof. intros * HW Hp _. by eapply bind_routable. Qed.
 Print Assumptions bind_routable_ranges.
 
 (** * mask, gateway, vlan: [ip_info] (Model/PluginInfo.v) of every IP a successful bind writes is that of a pool of the
@@ -126,7 +186,8 @@ Proof. exact bind_info_configured_l. Qed.
 Print Assumptions bind_info_configured.
 
 (** * a pod that holds an IP (no requested ranges) is offered exactly the candidate nodes whose subnet is listed by the
-      pool of the IP the oracle names; filter changes nothing *)
+      pool of the IP the oracle names ([y]; K7 repaired: the smallest IP of the key, [first_of_key_smallest]); filter
+      changes nothing *)
 Theorem owned_restricts : ∀ w p nodes o fl x e w' l,
   pd_ranges p = [] → i_alloc (w_ipam w) !! x = Some e → e_key e = pod_key p →
   filter_section w p nodes o fl = (w', FNodes l) →
